@@ -1,0 +1,15 @@
+//go:build verif
+
+// Contracts for this plugin, checked by /verif/govc (comment-only file).
+
+package sleep
+
+//@ func makeSleepHandler4$1
+//@   implements handler.Handler4
+//@   modifies everything
+//@   ensures[C17:sleep-passes-unchanged] ret0 == resp && !ret1 && (forall k uint8: (has(resp.Options, k) <==> old(has(resp.Options, k))) && resp.Options[k] == old(resp.Options[k]))
+
+//@ func makeSleepHandler6$1
+//@   implements handler.Handler6
+//@   modifies everything
+//@   ensures[C17:sleep-passes-unchanged] ret0 == resp && !ret1 && optn6(resp.(*dhcpv6.Message)) == old(optn6(resp.(*dhcpv6.Message))) && optlast6(resp.(*dhcpv6.Message)) == old(optlast6(resp.(*dhcpv6.Message)))
